@@ -399,7 +399,7 @@ def build_groups(rng, tier):
     ex = exhaustive_group(tier)
     groups.append({"descrs": ex, "kind": "exhaustive"})
     # build-order permutations of the exhaustive universe, compared with the canonical builds
-    n_perm = 40 if tier == "quick" else 250
+    n_perm = 30 if tier == "quick" else 250
     for _ in range(n_perm):
         base = rng.choice(ex)["want"]
         ds = [dict(ctor_from_abstract(base), want=base, kind="exhaustive")]
@@ -408,9 +408,9 @@ def build_groups(rng, tier):
         other = rng.choice(ex)["want"]
         ds.append(permuted_variant(rng, other, rng.randint(0, 5)))
         groups.append({"descrs": ds, "kind": "build-order"})
-    for _ in range(60 if tier == "quick" else 450):
+    for _ in range(50 if tier == "quick" else 450):
         groups.append({"descrs": random_group(rng, big=rng.random() < 0.3), "kind": "random"})
-    for _ in range(40 if tier == "quick" else 250):
+    for _ in range(32 if tier == "quick" else 250):
         groups.append({"descrs": route_group(rng, allow_repeats=False), "kind": "routes"})
     for _ in range(6 if tier == "quick" else 30):
         groups.append({"descrs": route_group(rng, allow_repeats=True), "kind": "routes-with-repeated-arguments"})
@@ -450,6 +450,25 @@ def subgroup(descrs, idxs):
             d["of"] = remap[d["of"]]
         out.append(d)
     return out, [remap[i] for i in idxs]
+
+
+def run_coqchk(rep, prop):
+    """thorough tier: the independent checker re-checks the compiled property file and everything it depends on"""
+    import subprocess
+    from ..common import COQ
+    t0 = time.time()
+    r = subprocess.run("ulimit -s unlimited 2>/dev/null; timeout 900 coqchk -silent -o -Q %s Verif Verif.Props.%s" % (COQ, prop),
+                       shell=True, capture_output=True, text=True)
+    ok = r.returncode == 0 and "type-in-type: <none>" in r.stdout and "unsafe (co)fixpoints: <none>" in r.stdout \
+        and "positivity is assumed: <none>" in r.stdout
+    rep.coverage["coqchk"] = {"ok": ok, "seconds": round(time.time() - t0, 1),
+                              "cmd": "coqchk -silent -o -Q coq Verif Verif.Props.%s" % prop}
+    rep.coverage["obligations"] = rep.coverage.get("obligations", 0) + 1
+    rep.coverage["discharged"] = rep.coverage.get("discharged", 0) + (1 if ok else 0)
+    if not ok:
+        p = write_replay(prop, "coqchk_failed", {"kind": "proof-obligation", "what": "coqchk rejected the compiled library",
+                                                  "out": (r.stdout + r.stderr)[-3000:]})
+        rep.violation(p, False)
 
 
 def strip(d):
@@ -593,4 +612,6 @@ def run(args):
         "float(repr(x)) == x re-checked on every value of this run (%d values)" % len(ff["reprs"]),
         "ASCII names without blanks or parentheses",
         "state facts are positive literals"]
+    if args.tier == "thorough" and not args.replay:
+        run_coqchk(rep, PROP)
     return rep.finish()
